@@ -54,9 +54,14 @@ Proof. dispatch. Qed.
 (* join, split                                                         *)
 
 Lemma tie_join_list : forall (x p : value) (l : list val) (strs : list str) (sep : str),
-  vv x = VList l -> to_string (vv p) = Some sep -> sep <> [] -> rendered l strs ->
+  vv x = VList l -> to_string (vv p) = Some sep -> rendered l strs ->
   apply_filter n_join x p = Ok (as_value (VStr (py_join sep strs))).
 Proof. intros. rewrite dispatch_join. eapply join_list; eassumption. Qed.
+
+Lemma tie_join_list_nosep : forall (x p : value) (l : list val) (strs : list str),
+  vv x = VList l -> to_string (vv p) = Some [] -> rendered l strs ->
+  apply_filter n_join x p = Ok (as_value (VStr (concat strs))).
+Proof. intros. rewrite dispatch_join. eapply join_list_nosep; eassumption. Qed.
 
 Lemma tie_join_string : forall (x p : value) (s sep : str),
   vv x = VStr s -> to_string (vv p) = Some sep ->
